@@ -25,7 +25,7 @@ ASSUMPTIONS = [
     "the worker's current directory is empty, so a source text coincides with a filesystem entry only in the dedicated F1 sub-workload",
     "linearity is decided on logical clocks (matcher calls, executed source lines); CPU time is only a coarse guard for work hidden inside C-level regex calls",
 ]
-DECIDING = ["parses_observed", "compile_calls", "enum_calls", "G1.evaluated", "scaling_triples"]
+DECIDING = ["header_documents", "parses_observed", "compile_calls", "enum_calls", "G1.evaluated", "scaling_triples"]
 G_DECIDING = {"G1", "G2", "G8"}
 OPTS = [(a, b, c) for a in (True, False) for b in (True, False) for c in (True, False)]
 ENV_KEYS = {"source", "gherkinDocument", "pickle", "parseError"}
@@ -46,6 +46,7 @@ def plan(tier, seed):
         for part in range(26):
             specs.append({"family": "corpus", "seed": seed, "n": 1, "mutations": True, "part": part, "parts": 26})
     specs += shards("f1", 1, 1, seed)
+    specs.append({"family": "headers", "seed": seed, "n": 1})
     specs.append({"family": "w0", "seed": seed, "n": 1})
     for fam in workloads.SCALING_FAMILIES:
         specs.append({"family": "scaling", "name": fam, "N": 250 if q else 2000, "seed": seed, "n": 1})
@@ -147,6 +148,16 @@ def run_shard(spec, M):
                 M.count("advisory.reused_outcome_differs_from_fresh")
             if i % 997 == 0:
                 M.sample({"family": fam, "text": short(text, 300)})
+    elif fam == "headers":
+        # language headers naming every dialect of the table and every name derived from one (language part alone, other
+        # region/script, other case, '_' for '-', a letter more or less), at the top and after a first header
+        from .. import dialects as _dl
+        names = sorted(_dl.master()) + _dl.derived_unknown_names()
+        for k, name in enumerate(names):
+            for text in ("# language: %s\nFeature: f\n  Scenario: s\n    Given x\n" % name,
+                         "#language:%s\n# language: %s\n\n* y\n" % (name, names[(k * 7) % len(names)])):
+                M.count("header_documents")
+                check_text(text, M, {"kind": "text", "family": fam, "text": text}, k)
     elif fam == "w0":
         from .base import run_repo_tests_under_monitors
         run_repo_tests_under_monitors(M, G_DECIDING)
